@@ -20,6 +20,114 @@ class ListV(Arr):
         raise Undecided("symbolic index into a concrete list")
 
 
+# ---------------------------------------------------------------------------------------------------
+# Matrix-level values (enabled by `I.matrix_level`): polynomials in ONE square matrix N̂.  Powers of one matrix commute, so the
+# commutative Σ-polynomial algebra is exact for them; N̂^e is the atom ("call", "matpow", e) with e an index expression, and the
+# product rule matpow(a)·matpow(b) = matpow(a+b) is applied after every multiplication.  Any other matrix product is evaluated
+# entry-wise from the body of the crate's Mul impl, as before.
+
+def matpow(e):
+    return Expr.atom(("call", "matpow", lift(e).simplified()))
+
+
+def _norm_matpow(poly):
+    out = []
+    for t in poly.terms:
+        tot, rest, seen = Expr.zero(), [], False
+        for a, x in t.atoms:
+            if a[0] == "call" and a[1] == "matpow":
+                if not (x.is_Integer and int(x) >= 1):
+                    raise Undecided("matrix power with exponent %s" % x)
+                tot = tot + a[2] * Expr.const(int(x))
+                seen = True
+            else:
+                rest.append((a, x))
+        if seen:
+            rest.append((("call", "matpow", tot.simplified()), 1))
+        out.append(Term(t.coeff, tuple(rest), t.binders, t.guards))
+    return Expr(out)
+
+
+class MatArr(Arr):
+    """A square matrix known as a polynomial in the base matrix; its entries are those of the base itself (poly = N̂) or named
+    unknowns `mat#i[r,c]` whose definition is kept in I.mat_defs."""
+    def __init__(self, I, cls, poly, base_arr=None):
+        self.poly = poly.simplified()
+        self.I_ = I
+        I.mat_counter = getattr(I, "mat_counter", 0) + 1
+        self.mname = "mat#%d" % I.mat_counter
+        I.mat_defs[self.mname] = self.poly
+        if base_arr is not None:
+            at = base_arr.at
+        else:
+            at = lambda r, c, _n=self.mname: Num(Expr.leaf(_n, r, c))
+        Arr.__init__(self, (cls, cls), at, name=self.mname)
+
+
+def _mat_poly(I, x):
+    if isinstance(x, MatArr):
+        return x.poly
+    if not isinstance(x, Arr) or isinstance(x, ListV) or len(x.classes) != 2:
+        return None
+    if x is getattr(I, "mat_base", None):
+        return matpow(1)
+    if x.name == "zeros" and not x.rules:
+        return Expr.zero()
+    if x.name == "acc" and not x.rules:
+        try:
+            e_ = x.at("§r", "§c")
+        except Undecided:
+            return None
+        if isinstance(e_, Num):
+            ts = e_.expr.terms
+            if len(ts) == 1 and len(ts[0].atoms) == 1 and ts[0].atoms[0][0][0] == "acc" and ts[0].atoms[0][0][-2:] == ("§r", "§c"):
+                return Expr.atom(ts[0].atoms[0][0][:-2])
+    return None
+
+
+def matrix_level_op(I, op, a, b):
+    """&A (*|+|-) &B at matrix level when both operands are polynomials in the base matrix; None to evaluate entry-wise."""
+    if not (isinstance(a, Arr) and isinstance(b, Arr) and len(a.classes) == 2 and len(b.classes) == 2):
+        return None
+    if getattr(I, "mat_base", None) is None and op == "*" and a is b and not isinstance(a, MatArr) and not (a.name in ("zeros", "acc") and not a.rules):
+        I.mat_base = a          # the first matrix multiplied by itself becomes the base N̂
+    pa, pb = _mat_poly(I, a), _mat_poly(I, b)
+    if pa is None or pb is None:
+        return None
+    if not (isinstance(a, MatArr) or isinstance(b, MatArr) or a is I.mat_base or b is I.mat_base):
+        return None
+    if op == "*":
+        poly = _norm_matpow(pa * pb)
+    elif op == "+":
+        poly = pa + pb
+    else:
+        poly = pa - pb
+    cls = a.classes[0] if a.classes[0] != "?" else b.classes[0]
+    return MatArr(I, cls, poly)
+
+
+class SymList(Arr):
+    """The list N̂¹, N̂², …: element t is N̂^(t+1); `len_expr` is its (symbolic) length."""
+    def __init__(self, I, cls, len_expr, mcls):
+        self.I, self.len_expr, self.mcls = I, lift(len_expr).simplified(), mcls
+        Arr.__init__(self, (cls,), self._at, name="powers")
+
+    def elem_expr(self, e):
+        return MatArr(self.I, self.mcls, matpow(lift(e) + Expr.const(1)))
+
+    def _at(self, t):
+        if isinstance(t, int):
+            return self.elem_expr(Expr.const(t))
+        if t == "first":
+            return self.elem_expr(Expr.const(0))
+        if t == "last":
+            return self.elem_expr(self.len_expr - Expr.const(1))
+        return self.elem_expr(Expr.leaf("$ix", t))
+
+    def m_last(self, name):
+        return self._at(name)
+
+
 class SetV(Arr):
     """A set described by its generators: list of (binder, class, guards, element key)."""
     def __init__(self, gens=()):
@@ -292,6 +400,8 @@ def as_num(v):
 def size_of(I, seq):
     if isinstance(seq, ListV):
         return num_const(len(seq.items))
+    if isinstance(seq, SymList):
+        return Num(seq.len_expr)
     if isinstance(seq, Struct) and seq.name == "Vector":
         seq = seq.fields["elements"]
     if isinstance(seq, Arr):
@@ -558,8 +668,21 @@ def call_values(I, c, args, e=None, env=None):
         if isinstance(c0, str) and c0.startswith("{"):
             return Num(Expr.atom(("call", "count", c0)))
         return size_of(I, args[0])
+    if name == "skip" and isinstance(args[0], Arr) and not isinstance(args[0], ListV) and isinstance(args[1], Num) and isinstance(args[1].ent, int) \
+            and getattr(args[0], "name", None) == "enumerate":
+        # `.enumerate().skip(c)`: the same (index, element) pairs from position c on (skip BEFORE enumerate would renumber: not modelled)
+        s_, c_ = args[0], args[1].ent
+        og = s_.guards_fn
+        return Arr(s_.classes, s_.base, s_.rules, guards_fn=(lambda k, _og=og, _c=c_: (list(_og(k)) if _og else []) + [("<=", _c, k)]), name="enumerate")
     if name in ("rev", "rfold", "next_back", "skip", "step_by", "take", "chain", "filter", "flat_map", "take_while", "skip_while", "sorted"):
         raise Undecided("iterator adapter `%s` is outside the summarisation model" % name, e.get("span") if e else None)
+
+    # ---- matrix-level arithmetic on polynomials in one matrix (the crate's operator impls are verified entry-wise by their own clause)
+    if getattr(I, "matrix_level", False) and (tr, name) in (("Mul", "mul"), ("Add", "add"), ("Sub", "sub")) and len(args) == 2 and local_body(I, c) is not None:
+        r_ = matrix_level_op(I, {"mul": "*", "add": "+", "sub": "-"}[name], args[0], args[1])
+        if r_ is not None:
+            I.mat_ops_used.add(local_body(I, c))
+            return r_
 
     # ---- local function: evaluate its body
     bp = local_body(I, c)
@@ -652,7 +775,31 @@ def placeholder_like(I, v, acc_id, idx=()):
     raise Undecided("fold accumulator of shape %r" % (v,))
 
 
+def _strip_acc(poly, ap):
+    """poly − ap when that is free of the accumulator, looking through one `ite` whose branches both carry it; else None."""
+    has_acc = lambda e_: e_.has_atom(lambda a: a[0] == "acc")
+    d = (poly - ap).simplified()
+    if not has_acc(d):
+        return d
+    ts = poly.simplified().terms
+    if len(ts) == 1 and ts[0].coeff == 1 and not ts[0].binders and not ts[0].guards and len(ts[0].atoms) == 1 and ts[0].atoms[0][1] == 1:
+        a = ts[0].atoms[0][0]
+        if a[0] == "ite" and len(a) == 4:
+            x, y = _strip_acc(a[2], ap), _strip_acc(a[3], ap)
+            if x is not None and y is not None:
+                return Expr.atom(("ite", a[1], x, y))
+    return None
+
+
 def fold_combine(I, init, acc, res, k, cls, gs):
+    if isinstance(res, MatArr):
+        ip, ap = _mat_poly(I, init), _mat_poly(I, acc)
+        if ip is None or ap is None:
+            raise Undecided("matrix accumulator that is not a polynomial in the base matrix")
+        delta = _strip_acc(res.poly, ap)
+        if delta is None:
+            raise Undecided("matrix fold step is not `acc + g(item)`")
+        return MatArr(I, res.classes[0], ip + delta.guarded(gs).sum_over(k, cls))
     if isinstance(init, Num):
         if not isinstance(res, Num) or not isinstance(acc, Num):
             raise Undecided("fold result shape")
